@@ -31,6 +31,8 @@ vmpi::ExploreResult vx_explore(const Args& a, Recorder& rec, const VxConfig& cfg
         o << "}, \"kind\": \"" << vx_kind_name(fd.kind) << "\", \"detail\": \"" << jesc(fd.detail) << "\", \"deviations\": " << fd.deviations << ", \"choices\": ["; for (size_t i = 0; i < fd.choices.size(); ++i) o << (i ? "," : "") << fd.choices[i]; o << "]}\n"; o.close();
         std::string t1, t2; int k1 = vmpi::replay_schedule(ec, h.body, h.oracle, h.reset, fd.choices, &t1), k2 = vmpi::replay_schedule(ec, h.body, h.oracle, h.reset, fd.choices, &t2);
         if (t1 != t2 || k1 != k2) throw std::runtime_error("engine nondeterminism: replaying the same schedule twice gave different observations: [" + t1 + "] vs [" + t2 + "]");
+        if (k1 == vmpi::Outcome::OK && fd.detail.find("watchdog") != std::string::npos) {   // the schedule, replayed alone with a longer limit, runs to completion: the watchdog fired on a slow machine, not on a hang
+            rec.note("an execution stopped by the watchdog ran to completion when its schedule was replayed alone: discarded (" + cfg.str() + ")"); rec.exhaustive = false; unlink(path.c_str()); continue; }
         if (k1 == vmpi::Outcome::OK) throw std::runtime_error("engine error: a recorded counterexample does not reproduce: " + cfg.str());
         std::string key = property + ":" + vx_kind_name(fd.kind) + ":" + cfg.harness;
         // key refinement: the parameters that select the failing code path
